@@ -47,6 +47,10 @@ pub enum Node {
     Flags(String, String, Box<Node>),
     /// inline flag setting `(?on-off)`, in effect until the end of the enclosing group
     SetFlags(String, String),
+    /// one character matched by a pattern in the regex crate's syntax (produced only by the
+    /// conversion from the crate's own expression tree: classes, \p{..}, case-insensitive literals);
+    /// the special pattern `\n*$` (body of `\Z`) is zero-width
+    Raw(String, bool),
 }
 
 use Node::*;
@@ -290,6 +294,13 @@ impl<'o> P<'o> {
                 let r = self.cond_ref(*g);
                 self.toks.push(format!("(?({}))", r));
             }
+            Raw(pat, ci) => {
+                if *ci {
+                    self.toks.push(format!("(?i:{})", pat));
+                } else {
+                    self.toks.push(pat.clone());
+                }
+            }
             SetFlags(on, off) => {
                 let mut s = format!("(?{}", on);
                 if !off.is_empty() {
@@ -376,6 +387,7 @@ impl Node {
         match self {
             Empty | Assert(_) | Look(..) | KeepOut | ContG | GroupExists(_) | Backref(_) | SetFlags(..) => true,
             Lit(_) | Any | AnyNl | Class(..) | Perl(_) => false,
+            Raw(p, _) => p == "\\n*$",
             Concat(v) => v.iter().all(|n| n.nullable()),
             Alt(v) => v.iter().any(|n| n.nullable()),
             Group(c) | Atomic(c) | Flags(_, _, c) => c.nullable(),
